@@ -71,6 +71,7 @@ type c20probe struct {
 	during       func() // runs while a read/write is being processed below/behind the idle handler
 	panicActive  bool   // the handler behind the idle handler panics in HandleActive
 	closeActive  func() // … or closes the channel there (connection limit, failed handshake)
+	eventHook    func() // runs inside the handler of the next idle event (a slow handler during which traffic arrives)
 }
 
 func (p *c20probe) HandleRead(ctx netty.InboundContext, m netty.Message) {
@@ -99,6 +100,10 @@ func (p *c20probe) HandleEvent(ctx netty.EventContext, ev netty.Event) {
 		p.events = append(p.events, fmt.Sprintf("r@%d", int(p.clk.now/tick)))
 	case netty.WriteIdleEvent:
 		p.events = append(p.events, fmt.Sprintf("w@%d", int(p.clk.now/tick)))
+	}
+	if f := p.eventHook; f != nil {
+		p.eventHook = nil
+		f()
 	}
 	if f := p.inactNext; f != nil {
 		p.inactNext = nil
@@ -273,8 +278,23 @@ func runC20(seed int64, count int) {
 					op = "fireinact"
 					pr.inactNext = inactive
 				}
+				touched := -1
+				if op == "fire" && !pr.panicNext && rng.Intn(4) == 0 {
+					// the idle-event handler takes a while, and a message passes the idle handler meanwhile
+					pr.eventHook = func() {
+						clk.now += time.Duration(rng.Intn(3)) * tick
+						touched = sec()
+						if kind == "r" {
+							pl.FireChannelRead("m")
+						} else {
+							netty.NvInvoke(ch, func() { pl.FireChannelWrite([]byte("w")) })
+						}
+					}
+				}
 				t.armed = false // time.AfterFunc timers fire once
+				firedAt := sec()
 				t.f()
+				pr.eventHook = nil
 				if op == "fireinact" {
 					if pr.inactNext != nil { // no event was delivered: inactive arrives right after the callback
 						pr.inactNext = nil
@@ -283,7 +303,12 @@ func runC20(seed int64, count int) {
 					active = false
 				}
 				pr.panicNext = false
-				report(op, sec(), "-")
+				if touched >= 0 {
+					report(op, firedAt, "-") // the check ran (and the event was delivered) before the message passed
+					report("touch", touched, "d=0")
+				} else {
+					report(op, sec(), "-")
+				}
 			default:
 				if active {
 					inactive()
